@@ -5809,7 +5809,7 @@ class CodegenCtx:
     def _escape_string(self, value: Union[bytes, str]):
         result = ""
         for i in self._literal_bytes(value):
-            if chr(i) in ["\\", '"']:
+            if chr(i) in ["\\", '"', "?"]: # (the question mark so that no trigraph can form)
                 result += "\\" + chr(i)
             elif not (32 <= i < 127):
                 # octal escapes are at most three digits long; a hex escape would swallow any hex digits that follow it
